@@ -13,11 +13,15 @@ for d in sorted(glob.glob(os.path.join(ROOT, 'seeded', '*'))):
     runs = [x for ev in evs for x in ev['ran']]
     first = runs[0] if runs else None
     last_caught = [x for x in runs if x['caught']]
-    own = [x for x in last_caught if x['check'] == os.path.basename(d).split('-')[0]]
-    now = (own or last_caught)[-1] if last_caught else None
+    pid = os.path.basename(d).split('-')[0]
+    own_runs = [x for x in runs if x['check'] == pid]
+    if own_runs:
+        now = own_runs[-1] if own_runs[-1]['caught'] else None          # the LATEST run of its own check decides
+    else:
+        now = last_caught[-1] if last_caught else None
     files = ', '.join(os.path.basename(f) for f in m.get('files', []))
     if m.get('judged') and not now:
-        now_txt = 'not caught -- judged not to violate the property as stated (round j text)'
+        now_txt = 'not caught -- a documented limit (reason in `seeded/%s/meta.json`, "judged")' % os.path.basename(d)
     elif m.get('superseded'):
         now_txt = 'superseded by a repair of the line it edits (kept as history)'
     else:
